@@ -822,6 +822,9 @@ fn body_level_name_decisions(s: &str) -> Result<Vec<(&'static str, bool)>, Strin
 }
 
 pub fn check_name(s: &str, packets: bool, all_fronts: bool) -> Result<bool, String> {
+    // a topic *filter* with the same text is alive while the name is judged (a subscription table next to the publish
+    // path): what is known about one kind of value says nothing about the other
+    let _live_filter = TopicFilter::try_from(s.to_string()).ok();
     let want = specpred::name_valid(s);
     if TopicName::is_invalid(s) == want {
         return Err(format!("TopicName::is_invalid({:?}..) = {} but the MQTT rule says the name ({} bytes) is {}", s.chars().take(40).collect::<String>(), want, s.len(), if want { "valid" } else { "invalid" }));
